@@ -2,7 +2,7 @@ HOOKS = dict(
     guard="verif",
     enable="go build -tags verif (the harness module /verif/harness replaces the btcwallet modules with /repo and its nested modules)",
     baseline_off_cmd='for m in $(cat /w/out/gomods.txt); do MF=$(cd /repo/$m && . /w/out/goenv.sh && gomodflag); (cd /repo/$m && go test $MF -json -vet=off -count=1 -timeout 25m ./...); done',
-    source_commits=["5b644b4", "b6fa4f8", "2d02f0b", "3b8c29c"],
+    source_commits=["5b644b4", "b6fa4f8", "2d02f0b", "3b8c29c", "ed2464a", "5320acb"],
     add_only=True,
 )
 
@@ -93,14 +93,33 @@ CHECKS = {
              "part); it is exercised by the reopen runs. The expiry returned by LockOutput carries sub-second precision while the stored one is truncated to "
              "seconds: theorems and comparison use the stored/listed expiry."),
     "C13": dict(
-        text="Theorem C13_details_equal_ledger: after every prefix of every chain-consistent history, for every transaction id, TxDetails reports it iff the "
-             "ledger knows it, under its current block or as unconfirmed, with exactly the credited outputs (amount, change flag, spent flag = some known "
-             "confirmed or unconfirmed transaction spends it) and one debit with the credit's amount per input spending a wallet credit; UniqueTxDetails at "
-             "its current incidence agrees; the unconfirmed hash list is the ledger's unconfirmed set. Tie to the code: TxDetails/UniqueTxDetails for every "
-             "universe tx and RangeTransactions over nine (begin,end) pairs in both directions after every event, vs model and vs spec_details.",
-        note="Range iteration is proved too (C13_range_iteration_equals_ledger: groups per confirmed height in range, ascending or descending, each known "
-             "transaction exactly once, removed ones never, backward = reverse of forward; full iteration needs confirmed heights < 2^31 for the -1 convention) "
-             "and the harness oracle compares every range query with the ledger's prediction. Model coq/Tx/Store.v transcribes wtxmgr bucket for bucket (10 buckets, InsertTx/AddCredit/Rollback/removeConflict/Balance/fetchCredits/leases/TxDetails/RangeTransactions); hypotheses: wf_universe (ids, positive amounts, duplicate-free inputs, inputs name existing outputs, acyclic by rank) and chain_consistent (decidable, Tx/Hist.v: what a validating node can emit - re-deliveries and unconfirmed conflicts allowed). Trusted: Coq kernel+vm_compute, the hand-written model (tied by the differential run after EVERY event), generator, bbolt. Integer wrap-around outside the model (amounts < 2^53, heights < 2^20 generated). Late discovery of credits not generated. No axioms (Print Assumptions closed)."),
+        text='Eight theorems, each for every prefix of every chain-consistent history. C13_details_equal_ledger: for every transaction id, TxDetails '
+             'reports it iff the ledger knows it, under its current block or as unconfirmed, with exactly the credited outputs (amount, change flag, spent '
+             "flag = some known confirmed or unconfirmed transaction spends it) and one debit with the credit's amount per input spending a wallet credit; "
+             "the unconfirmed hash list is the ledger's unconfirmed set. C13_block_qualified_lookup: UniqueTxDetails(t, Some b) returns the ledger's "
+             'details exactly when the ledger has t confirmed in exactly block b (height AND hash) - nothing for a stale block after a reorg, a block the '
+             'transaction never was in, or the right height under a foreign hash; with None exactly when t is unconfirmed. '
+             'C13_range_iteration_equals_ledger and C13_range_groups_with_details_and_early_exit: groups per confirmed height in range, ascending or '
+             'descending, each known transaction exactly once with full details, removed ones never, a callback answering stop on its k-th call sees '
+             'exactly the first k groups without error; order inside a group is not fixed. C13_previous_scripts: exactly one script per input that spends '
+             'a wallet credit, in input order, never a data error. C13_get_transactions and C13_get_transactions_lists_each_known_transaction_once: '
+             'Wallet.GetTransactions equals the range iteration over the resolved identifiers (height or hash, defaults 0 and -1, backend error returned, '
+             'closed cancel channel stops after one group) and GetTransactions(nil, nil) lists a permutation of the known transactions, each confirmed one '
+             'under its current block, each unconfirmed one in the unmined list. Tie to the code: after every event, TxDetails / UniqueTxDetails for every '
+             'universe transaction under its current block, every past block, a foreign block and the same height under a fresh hash; full-detail ranges '
+             '(compared as multisets per group) with stop-after-k callbacks in both directions; PreviousPkScripts under the nil, confirming and stale '
+             'block; GetTransactions on a real wallet over the store with height and hash identifiers through every backend branch - versus model '
+             '(Tx/Query.v) and versus the ledger specification.',
+        note='Model coq/Tx/Store.v + Tx/Query.v transcribe wtxmgr bucket for bucket (10 buckets, '
+             'InsertTx/AddCredit/Rollback/removeConflict/Balance/fetchCredits/leases/TxDetails/RangeTransactions/PreviousPkScripts) and the '
+             'GetTransactions layer of wallet/wallet.go (identifier resolution, range callback, makeTxSummary output walk); hypotheses: wf_universe (ids, '
+             'positive amounts, duplicate-free inputs, inputs name existing outputs, acyclic by rank) and chain_consistent (decidable, Tx/Hist.v: what a '
+             'validating node can emit - re-deliveries and unconfirmed conflicts allowed). One defect found and repaired (fix: c49e2ea GetTransactions '
+             'end-hash with a bitcoind backend landed in the start of the range); replay runs first from corpus/C13. PARTIAL: the account, internal, label '
+             'and timestamp fields of TransactionSummary are outside the model; full iteration needs confirmed heights < 2^31 for the -1 convention. '
+             'Trusted: Coq kernel+vm_compute, the hand-written model (tied by the differential run after EVERY event), generator, bbolt. Integer '
+             'wrap-around outside the model (amounts < 2^53, heights < 2^20 generated). Late discovery of credits not generated. No axioms (Print '
+             'Assumptions closed; coqchk: none).'),
     "C14": dict(
         text="Theorem C14_dependency_sort (unbounded, Kahn invariant): for every finite set of transactions with distinct ids whose in-set spend relation is "
              "acyclic (rank function; C14_acyclic_iff_no_cycle proves this equivalent to 'no cycle') and every pair of map iteration orders (any permutation "
@@ -113,22 +132,33 @@ CHECKS = {
              "output must be an admissible Kahn run); exact FIFO reproduction is a diagnostic, never a failure (a LIFO work list does not alarm). "
              "Assumed: map key = hash of its transaction. No axioms (Print Assumptions closed x5; coqchk: none)."),
     "C07": dict(
-        text="Model Fee/Fee.v transcribes txrules.FeeForSerializeSize (truncation, zero-fee-becomes-rate rule, MaxSatoshi clamp), mempool GetDustThreshold/"
-             "IsDust, txsizes.EstimateVirtualSize, the loop of txauthor.NewUnsignedTransaction over a prefix-accumulating input source (fuel |coins|+1) and "
-             "the serialized virtual size of the signed transaction as a function of the actual signature lengths. Proved for every output list, every rate "
-             "from the relay floor upward, every arrangement of P2PKH/P2TR/P2WPKH/nested-P2WPKH coins and every change script size, unbounded: C07_terminates, "
-             "C07_outputs_kept (requested outputs unchanged and in order, change appended), C07_value_conserved (sum in = sum out + fee), "
-             "C07_fee_covers_real_size (fee >= fee_for rate (real signed vsize) for every admissible signature-length assignment and every output count; "
-             "252/253 and 65535/65536 are instances), C07_fee_upper_bound (fee < fee_for rate (worst-case estimate with one change output) + dust threshold "
-             "of the change script), C07_change_never_dust, C07_insufficient_funds (only if no prefix of the arrangement covers outputs + its required fee). "
-             "Three regenerated facts are discharged by computation against Generated/TxsizesConsts.v (constants exact, varint counts the change output, "
-             "initial guess minimal). Tie to the code: real NewUnsignedTransaction + AddAllInputScripts with real secp256k1 keys, every input verified by the "
-             "txscript engine, size measured with mempool.GetTxVirtualSize; rounds, input kinds, estimate, fee, change index/amount compared per case.",
-        note="Two defects found and repaired (fix: 0bde911 output-count varint, fix: 0390ece initial fee guess); their replays run first from corpus/C07. "
-             "Assumptions: prefix-accumulator input source (wallet.makeInputSource); compressed keys; rate >= 1000 for the rate bounds; int64 wrap not "
-             "modelled. Admissible signatures: DER <= 72, Schnorr <= 65, and DER <= 71 (low-S, what btcec signs) for P2PKH inputs of a transaction that also "
-             "has witness inputs - the estimator ignores the 1 wu empty-witness byte of such inputs (witness kept as C07_high_s_mixed_not_covered). "
-             "wallet-level RandomizeChangePosition is outside the model. No axioms (Print Assumptions closed x8; coqchk: none)."),
+        text='Model Fee/Fee.v transcribes txrules.FeeForSerializeSize (truncation, zero-fee-becomes-rate rule, MaxSatoshi clamp), GetDustThreshold/IsDust, '
+             'txrules.CheckOutput, txsizes.EstimateVirtualSize, the loop of txauthor.NewUnsignedTransaction over BOTH wallet input sources '
+             '(makeInputSource prefix accumulation, constantInputSource explicit selection: the `currentTotal +=` accumulation is modelled, so '
+             'conservation is not definitional), the wallet change source (declared change script size per change scope vs real script length), '
+             'RandomizeChangePosition (swap with the observed draw) and the serialized virtual size of the signed transaction as a function of the actual '
+             'signature and public-key lengths. 14 theorems, unbounded over coins, outputs, rate, change kind, draw and either source: txauthor level '
+             'C07_terminates, C07_outputs_kept, C07_value_conserved, C07_fee_covers_real_size, C07_fee_for_is_rate_times_size, C07_fee_upper_bound, '
+             'C07_change_never_dust, C07_insufficient_funds; wallet level C07_wallet_outputs_once (outputs = permutation of the requested ones plus the '
+             'change at ChangeIndex), C07_wallet_value_conserved (sum of coin values = sum of outputs + fee, with the accumulator invariant), '
+             'C07_wallet_fee_covers_real_size (fee >= floor(rate*real signed vsize/1000) capped at MaxSatoshi), C07_wallet_fee_upper_bound, '
+             'C07_wallet_change_and_amounts, C07_wallet_insufficient_funds. Regenerated facts (Generated/TxsizesConsts.v; source reader of every term of '
+             'baseSize, the witness-weight block and the scriptSize switch of addrMgrWithChangeSource, with probe fallback) enter as INEQUALITIES '
+             '(sizes_cover, consts_sane, change_sizes_cover; relay_floor_exact for the upper bound only), so a more conservative constant keeps the '
+             'proofs. Tie to the code: real NewUnsignedTransaction + signing with real secp256k1 keys through the real input sources (hook), and a fresh '
+             'REAL wallet per case through CreateSimpleTx, SendOutputs(WithInput) and FundPsbt (every input kind incl. imported and imported-uncompressed '
+             'keys, change scopes none/44/49/84/86, explicit and automatic selection, 252-260 inputs, 251-253 outputs, refused outputs, amount '
+             "boundaries); every oracle kind is judged on the SIGNED transaction against the harness's own ledger of coin values, size by "
+             'mempool.GetTxVirtualSize, every input verified by the script engine.',
+        note='Two defects found and repaired (fix: 0bde911 output-count varint, fix: 0390ece initial fee guess); replays run first from corpus/C07. KNOWN '
+             'FINDING (not repaired): a P2PKH input signed with an UNCOMPRESSED imported key is 32 bytes larger than the size constant assumes, fee below '
+             'rate x real size by up to rate*32/1000 per such input (kind fee_below_rate_uncompressed_key, separate from fee_below_rate so it cannot mask '
+             'a larger shortfall; regenerated fact p2pkh_covers_uncompressed is false, witness theorem C07_uncompressed_key_refuted, two-sided so a repair '
+             'keeps the file compiling). Signature hypothesis (admissible), exact: ECDSA DER <= 72 bytes + sighash byte with a 33-byte key (<= 71 for a '
+             'P2PKH input of a transaction that also has witness inputs: C07_high_s_mixed_not_covered), Schnorr <= 65. PARTIAL: nested-P2WPKH change is '
+             'reached only through NewAccountWatchingOnly; FundPsbt cases are compared as multisets (no BIP69 sort in the model); for the random selector '
+             'the model is given the prefix the selector took; int64 wrap not modelled; rate >= relay floor for the rate bounds. Trusted: hook file '
+             'wallet/verif_hooks_c07.go (unchanged wrappers). No axioms (Print Assumptions closed x14; coqchk: none).'),
     "C09": dict(
         text="Interleaving model of address issuance: N threads (any N, any site mix, n >= 0 addresses per request, commit or rollback) with steps Lock, Begin, "
              "Read(in-memory index), Write, Commit/Abort, Callback, Unlock over newAddrMtx, the bbolt writer lock, the cached and the on-disk next index. "
@@ -144,35 +174,50 @@ CHECKS = {
              "recovery (extendFoundAddresses) is outside the quantifier; no -race run (CGO off). Trusted: Coq kernel+vm_compute, Conc.v, extract-c09, proxydb, "
              "bbolt writer exclusivity. No axioms."),
     "C05": dict(
-        text="Executable model of waddrmgr's lock discipline (disk blobs bound to passphrase generations, lock/watch-only flags, one boolean per clear-text "
-             "buffer), parameterised by 7 facts re-extracted from waddrmgr/*.go (go/ast) on every run. 14 theorems over ALL operation histories: (i) every private "
-             "accessor (PrivKey/ExportPrivKey, DeriveFromKeyPath(+PrivKey), DeriveFromKeyPathCache, secret Script/TaprootScript, Encrypt/Decrypt private|script, "
-             "NewAccount, ImportPrivateKey, secret script imports) returns a locked/watching-only error and no key material in every state with locked or "
-             "watch-only; every reachable locked or watching-only state holds no secret clear text (master, crypto priv/script, hashed passphrase, account keys, "
-             "address keys incl. the cached last addresses, secret scripts of all three kinds, derived-key cache); Lock clears all of them from any state; "
-             "(ii) the current private passphrase always unlocks whatever was created or loaded, any other fails and leaves the manager locked and wiped; "
-             "(iv) private and public passphrase change: new works, old fails, immediately and after any later history including restarts; 7 C05_refuted_* "
-             "witnesses, one per fact. Correspondence: real waddrmgr on bbolt, corpus replays + scenarios + random histories with right/near-miss/former "
-             "passphrases, restarts, conversions; every accessor probed after every operation; hook VerifSecretBuffers plus reflection on the cached last "
-             "addresses compared with the model.",
-        note="Five defects found and repaired (fix: 9cfa76a, 9338e0c, bbb3dca, ebd132b, 206f834); replays run first from corpus/C05. PARTIAL: crypto strength "
-             "enters through an ideal KDF/digest law (C17's subject; harness passphrases <= 64 bytes without trailing NULs); every transaction commits iff the op "
-             "returned nil (C08/C10); ExtendAddresses, NewScopedKeyManager, InvalidateAccountCache not modelled; ImportPrivateKey on a watching-only manager "
-             "succeeds by design (stores the public key only). Trusted: go/ast extractor, harness (incl. the reflection read), driver. No axioms."),
+        text="Executable model Addr/Lock.v of waddrmgr's lock discipline (Lock, Unlock incl. wrong passphrase and derive-on-unlock, ChangePassphrase, "
+             'ConvertToWatchingOnly, address/script/account objects and their clear-text buffers, the LRU key cache with its source capacity) '
+             'parameterised by 20 facts regenerated from the source (Generated/LockFacts.v; source reader with a 28-scenario behavioural probe fallback '
+             "that reads RETAINED references to the buffers). The state records in `gone` every buffer that left the manager's object graph (MarkUsed, "
+             'InvalidateAccountCache, a replaced last address, the derive-on-unlock objects Unlock fills and forgets, LRU eviction, what lock() itself '
+             'drops). 20 theorems, for every history: locked or wrong passphrase => every private access (PrivKey, Script of a secret script, signing, new '
+             'accounts, private imports, crypt) is refused; watch-only likewise; a failed Unlock leaves the manager locked and wiped; C05_lock_clears '
+             '(lock wipes everything it reaches and what it drops itself is dead); C05_dropped_never_forgotten; C05_locked_holds_no_cleartext_anywhere '
+             'under the premise evict_ok; C05_refuted_without_zeroing and C05_refuted_without_eviction_wipe exhibit the failing history when a zeroing or '
+             'eviction-wipe fact is false. Tie to the code: real waddrmgr; before and after every operation the harness walks EVERY field under *Manager '
+             'by reflection (no list of field names; private ExtendedKeys, btcec private keys, snacl CryptoKeys are secret wherever they hang, every other '
+             'byte field is scanned for the bytes of secrets seen while unlocked and of keys the harness derives itself from the seed), keeps references '
+             'to the backing memory, and whenever the manager is locked or watching-only reads all retained references: oracle kinds '
+             'cleartext_survives_lock@<Type.field>, secret_copy_survives_lock@<Type.field>, evicted_cleartext_survives_lock@<buffer>:<operation>.',
+        note='Five lock defects found and repaired earlier (fix: 9cfa76a, 9338e0c, bbb3dca, ebd132b, 206f834, 0aab04c); replays run first from corpus/C05. '
+             "KNOWN FINDINGS (7, one family, kind evicted_cleartext_survives_lock): objects that leave the manager's state while it is unlocked (MarkUsed, "
+             'InvalidateAccountCache, replaced last address in nextAddresses/extendAddresses, the derive-on-unlock queue, LRU eviction) are not wiped, so '
+             'their clear text survives Lock; replays corpus/C05/e1..e5; a repair is proposed (corpus/C05/e_fix_proposed.diff: a wipe helper at four '
+             'sites; no hook exists for the LRU site) but not applied (three files, changes object life cycles). Consequently evict_ok is false on this '
+             'tree and C05_locked_holds_no_cleartext_anywhere is vacuous here (PARTIAL, stated in the file header); the memory clause is proved for '
+             "everything still reachable and for lock's own drops. Objects never stored in the manager (a caller's copy, e.g. the result of "
+             "DeriveFromKeyPath) are outside the property. The correspondence treats 'locked' and 'watch-only' refusals as interchangeable where the "
+             "property allows either and does not compare unlocked memory. Go's garbage collector may keep freed copies: outside the model. No axioms."),
     "C11": dict(
-        text="Eleven theorems for every database state, transaction body, outcome and sequence of transactions: C11_failed_update_changes_nothing (error or "
-             "panic: committed state unchanged, writer released), C11_db_usable_after_any_history, C11_commit_makes_all_changes_visible_together, "
-             "C11_reopen_sees_committed_partial, C11_reachable_states_well_formed, C11_read_your_writes, C11_readonly_cannot_modify (every mutating op on a "
-             "read-only tx fails and changes nothing), C11_cursor_order (First/Next ascending byte order, Last/Prev its reverse, Seek = least entry >= k), "
-             "C11_cursor_delete_then_reseek, C11_namespaces_independent, C11_incomparable_buckets_commute. Model KV/KV.v: a bucket is one name space ordered by "
-             "byte-lexicographic name, each name bound to a value or a nested bucket, plus a sequence counter; operations transcribed from bdb/db.go with the "
-             "error classes of convertErr. Tie to the code: random sequences of 3-12 transactions on a real bbolt file through walletdb+bdb (Update/View closures "
-             "returning nil/error/panicking, manual Begin/Commit/Rollback, reader overlapping a writer, close+reopen), every call result, error class, cursor "
-             "walk and a dump of the whole tree after each step compared with the model, plus a model-independent oracle on the dumps.",
-        note="PARTIAL: 'after the file is reopened' - reopen is the identity in the model; durability and crash atomicity of the file are bbolt's (trusted; only "
-             "clean close+reopen is exercised). Outside the compared patterns: cursor use after Cursor.Delete without re-positioning, and Last/Prev over a "
-             "multi-page bucket that had deletions in the same transaction (bbolt 1.3.11 Cursor.Prev stops at an emptied leaf page - dependency behaviour, "
-             "recorded in DESIGN 9.3, probe VERIF_C11_PROBE=1). No axioms (Print Assumptions closed x11; coqchk: none)."),
+        text='Seventeen theorems. The model KV/KV.v (a bucket = one name space ordered by byte-lexicographic name, names bound to a value or a nested '
+             'bucket, plus a sequence counter; committed tree, writer flag, open read transactions) is PARAMETERISED by the control-flow skeleton of '
+             'db.Update / db.View / db.Batch - per way the closure ends (nil / error / panic): what becomes of the transaction (commit / rollback / leak) '
+             'and what the caller gets - regenerated into Generated/TxFlow.v (symbolic execution of walletdb/bdb/db.go by harness/cmd/extract-c11, '
+             'confirmed by a 12-scenario behavioural probe; Batch by the probe alone). C11_code_skeleton_safe is the obligation on this tree: commit only '
+             'on nil, rollback on every error and panic path, View always closes its read transaction, errors and panics reach the caller. From it, for '
+             'every database state, body, outcome and sequence: a failed Update/Batch changes nothing (any number of Batch re-runs), the database is '
+             'usable after any history (no open read tx, Close returns), a commit makes all changes visible together, a nil return means the closure '
+             'returned nil, Batch applies exactly once, concurrent callers are serialisable (any admitted quiescent schedule = the serial run in begin '
+             'order), read-your-writes, read-only transactions cannot modify, cursor order and delete-then-reseek, namespace independence, incomparable '
+             'buckets commute; C11_rollback_premise_needed shows each fact is needed. Tie to the code: random sequences on a real bbolt file through '
+             'walletdb+bdb (Update/View/Batch closures returning nil/error/panicking, manual transactions, reader overlapping a writer, 2-6 concurrent '
+             'goroutines with a serialisability oracle, close+reopen); every result, cursor walk, the open-read-transaction count (hook '
+             'bdb.VerifOpenReadTxs) and a dump of the whole tree after each step are compared with the model, plus a model-independent oracle.',
+        note="PARTIAL: reopen is the identity on the committed tree in the model (durability / crash atomicity of the file are bbolt's: trusted; only "
+             "clean close+reopen is exercised); concurrency is proved for the model's lock (bbolt's lock and Batch grouping are exercised only); "
+             'tx.Commit/Rollback are assumed to succeed; corner error classes of bbolt itself (DeleteNested of an unbound/empty name, NextSequence on a '
+             'read tx, cursor after running off the end) are counted as drift, not compared. Outside the compared patterns: cursor use after Cursor.Delete '
+             'without re-positioning, Last/Prev over a multi-page bucket that had deletions in the same transaction (bbolt 1.3.11 behaviour, DESIGN 9.3). '
+             "Observation (not judged: the property is silent on error values): db.Batch returns bbolt's errors unconverted. No axioms (coqchk: none)."),
     "C15": dict(
         text="Model Sync/Sync.v of connectBlock / disconnectBlock / addRelevantTx / PutSyncedTo (window map with pruning at MaxReorgDepth) / the syncWithChain "
              "rollback loop / catchUpHashes. Ten theorems: for every valid evolution (reorg of any depth whose lowest replaced block is inside the stored "
